@@ -115,6 +115,19 @@ def handleC07 : List String → Verdict
       { mismatch := if ok then none else some s!"source map tables differ from the model after {adds.length} add(s)",
         nontrivial := adds.any (fun (v, _, _) => v.contains 10 || v.any (· ≥ 128)), tags := ["smadd"], sig := "smadd" }
     | _, _, _ => .badOp
+  | ["lsphover", stepS, name, wantH, gotH] =>
+    -- the language server after step `name` of an editor session: for every templ position asked about, gopls was asked
+    -- about the Go position a fresh generation of the current text maps it to (or not at all where nothing is mapped)
+    match hexField wantH, hexField gotH with
+    | some want, some got =>
+      let show_ := fun (b : Bytes) => String.ofList (b.map fun c => Char.ofNat c.toNat)
+      let ws := (show_ want).splitOn " "
+      let gs := (show_ got).splitOn " "
+      let firstDiff := ((ws.zip gs).find? fun p => p.1 != p.2).map fun p => s!"templ>go expected {p.1}, gopls was asked {p.2}"
+      { predfail := if want == got then none else
+          some s!"language server after step {stepS} ({name}): positions are translated with another source map than that of the current text: {firstDiff.getD "different number of positions"}",
+        nontrivial := ws.any (fun w => !w.endsWith "none"), tags := ["lsp-hover:" ++ name], sig := "lsphover" }
+    | _, _ => .badOp
   | ["symadd", addsS, resS] =>
     let rng4 : List String → Option (Rng × Rng) := fun fs =>
       match fs.mapM parsePos with
